@@ -10,6 +10,8 @@ package main
 
 import (
 	"fmt"
+	"os"
+	"runtime/pprof"
 	"sort"
 	"strings"
 	"sync"
@@ -107,7 +109,16 @@ type xvar struct {
 	AttrName string
 }
 
-func xMenu(op int) []xvar {
+var xMenus = func() (r [opCount][]xvar) {
+	for op := 0; op < opCount; op++ {
+		r[op] = buildXMenu(op)
+	}
+	return
+}()
+
+func xMenu(op int) []xvar { return xMenus[op] }
+
+func buildXMenu(op int) []xvar {
 	var m []xvar
 	switch opNames[op] {
 	case "create", "createV2":
@@ -531,6 +542,12 @@ func newWorld(label string, allowEC bool) (*irworld.World, *fix, error) {
 
 func main() {
 	r := ev.Start("C37", ev.Exploration)
+	if pf := os.Getenv("VERIF_CPUPROFILE"); pf != "" {
+		fh, _ := os.Create(pf)
+		pprof.StartCPUProfile(fh)
+		defer pprof.StopCPUProfile()
+		go func() { time.Sleep(20 * time.Second); pprof.StopCPUProfile(); fh.Close(); os.Exit(3) }()
+	}
 	am := authMenu()
 	if r.Replay != "" {
 		var c ccase
